@@ -312,7 +312,7 @@ Section primitives.
     | O => OutOfFuel
     | S f =>
       match rest with
-      | [] => Ok out
+      | [] => Err EBlockHash   (* the data ends before the closing empty block (fix 92a788c) *)
       | _ :: _ =>
         if Nat.ltb (length rest) 36 then Err EBlockHash
         else
